@@ -1,10 +1,11 @@
 SPECIFICATION Spec
 CONSTANTS
   ChannelSlice = "next_checked"
-  CfgSpace <- MCSpaceQuick
+  CfgSpace <- MutSpaceQuick
 INVARIANT EncodingWellFormed
 INVARIANT EncodingValid
 INVARIANT EncodingDecodes
+INVARIANT EncodingAccepted
 INVARIANT ParseTotal
 INVARIANT ParseAgrees
 INVARIANT ParseComplete
